@@ -132,7 +132,12 @@ class Shape:
 
     def t_bool(self, d):
         r = self.r
-        k = weighted(r, [('cmp', 5), ('not', 1.5), ('in', 2), ('starts', 1)])
+        k = weighted(r, [('cmp', 5), ('not', 1.5), ('in', 2), ('starts', 1), ('cmpcmp', 1.5)])
+        if k == 'cmpcmp':
+            # a comparison whose operand is itself a (parenthesised) comparison: still three operands, each once
+            inner = ['bin', r.choice(['<', '==', '!=', '>=']), self.e('num', d), self.e('num', d)]
+            other = self.e(r.choice(['bool', 'num']), d)
+            return ['bin', r.choice(['==', '!=', '<', '>']), inner, other] if r.random() < 0.7 else ['bin', r.choice(['==', '!=']), other, inner]
         if k == 'cmp':
             return ['bin', r.choice(['<', '<=', '>', '>=', '==', '!=']), self.e('num', d), self.e('num', d)]
         if k == 'not':
@@ -193,7 +198,10 @@ class Shape:
                     body = self.e(r.choice(['num', 'list', 'list', 'str', 'bool']), max(1, min(d, 2)))
             finally:
                 self.in_lambda -= 1
-            return self.call('map', [seq, ['lambda', ['v'], body]])
+            hof = r.choice(['map', 'map', 'filter', 'sorted', 'reduce'])
+            if hof == 'reduce':
+                return self.call('reduce', [seq, ['lambda', ['w', 'v'], body]])
+            return self.call(hof, [seq, ['lambda', ['v'], body]])
         self.kinds.add('dict_literal')
         return self.call(r.choice(['values', 'keys', 'items']), [self.t_dict(d)])
 
